@@ -376,6 +376,8 @@ def run_batch(unit, lo, hi, timeout=150):
             cur = case
             continue
         kind = classify_stderr(se)
+        if sig == "CPU-WATCHDOG":
+            kind = "hang:cpu-watchdog"  # the case burnt its CPU budget: an endless loop, not a slow machine
         dprops = (death or {}).get("props", "")
         if kind and kind.startswith("assert:") and "is_aligned" in kind and "C03" not in dprops:
             dprops = (dprops + ",C03").strip(",")  # the library's own alignment assertion is C03's monitor too
